@@ -229,6 +229,23 @@ pub open spec fn port_padded(a: &PortData, b: &PortData, n: nat) -> bool {
 	&&& b.port == a.port && data_padded(&a.leader, &b.leader, n)
 	&&& (a.follower is Some == b.follower is Some) && (a.follower is Some ==> data_padded(&a.follower->Some_0, &b.follower->Some_0, n))
 }
+// row alignment (C04 "its values sit in that row and never in another row"): with n frame rows, every character has
+// n or n-1 pre rows and n or n-1 post rows (n-1: no event yet in the open frame) and never a post without its pre
+pub open spec fn data_aligned(d: &Data, n: nat) -> bool {
+	&&& (d.pre.len_spec() == n || d.pre.len_spec() + 1 == n)
+	&&& (d.post.len_spec() == n || d.post.len_spec() + 1 == n)
+	&&& d.post.len_spec() <= d.pre.len_spec()
+}
+pub open spec fn port_aligned(p: &PortData, n: nat) -> bool { data_aligned(&p.leader, n) && (p.follower is Some ==> data_aligned(&p.follower->Some_0, n)) }
+pub open spec fn rows_aligned(st: &ParseState) -> bool {
+	forall|k: int| 0 <= k < st.game.frames.ports@.len() ==> port_aligned(#[trigger] &st.game.frames.ports@[k], st.game.frames.id@.len())
+}
+// all characters level with the frame rows (what a closed frame looks like)
+pub open spec fn data_level(d: &Data, n: nat) -> bool { d.pre.len_spec() == n && d.post.len_spec() == n }
+pub open spec fn rows_level(st: &ParseState) -> bool {
+	forall|k: int| 0 <= k < st.game.frames.ports@.len() ==> data_level(&(#[trigger] st.game.frames.ports@[k]).leader, st.game.frames.id@.len())
+		&& (st.game.frames.ports@[k].follower is Some ==> data_level(&st.game.frames.ports@[k].follower->Some_0, st.game.frames.id@.len()))
+}
 // a character may be closed when its pre and post columns are level and not ahead of the frame rows
 pub open spec fn data_closable(d: &Data, n: nat) -> bool { d.pre.len_spec() == d.post.len_spec() && d.pre.len_spec() <= n }
 pub open spec fn port_closable(p: &PortData, n: nat) -> bool { data_closable(&p.leader, n) && (p.follower is Some ==> data_closable(&p.follower->Some_0, n)) }
@@ -266,6 +283,7 @@ impl ParseState {
 		(*final(self)).game.frames.ports@.len() == (*old(self)).game.frames.ports@.len(),
 		forall|k: int| 0 <= k < (*old(self)).game.frames.ports@.len() ==>
 			port_padded(#[trigger] &(*old(self)).game.frames.ports@[k], &(*final(self)).game.frames.ports@[k], (*old(self)).game.frames.id@.len()) /*[C04.every_column_one_entry_per_row]*/,
+		rows_level(&*final(self)) /*[C04.closed_frame_is_level]*/,
 //@loop 1
 		invariant
 			len == (*old(self)).game.frames.id@.len(),
@@ -278,6 +296,8 @@ impl ParseState {
 			forall|k: int| 0 <= k < self.game.frames.ports@.len() ==> port_wf(#[trigger] &self.game.frames.ports@[k], ver(&*old(self))),
 			forall|k: int| 0 <= k < (*old(self)).game.frames.ports@.len() ==> port_closable(#[trigger] &(*old(self)).game.frames.ports@[k], len as nat),
 			forall|k: int| 0 <= k < i__0 ==> port_padded(#[trigger] &(*old(self)).game.frames.ports@[k], &self.game.frames.ports@[k], len as nat),
+			forall|k: int| 0 <= k < i__0 ==> data_level(&(#[trigger] self.game.frames.ports@[k]).leader, len as nat)
+				&& (self.game.frames.ports@[k].follower is Some ==> data_level(&self.game.frames.ports@[k].follower->Some_0, len as nat)),
 			forall|k: int| i__0 <= k < self.game.frames.ports@.len() ==> #[trigger] self.game.frames.ports@[k] == (*old(self)).game.frames.ports@[k],
 		decreases self.game.frames.ports@.len() - i__0,
 //@after let p = &mut
@@ -367,6 +387,9 @@ pub open spec fn char_ok(st: &ParseState, p: Seq<u8>) -> bool {
 	&&& p[4] < 4 && slot_of(st, p[4]) < st.game.frames.ports@.len()
 	&&& (p[5] != 0 ==> st.game.frames.ports@[slot_of(st, p[4])].follower is Some)
 }
+pub open spec fn addressed(st: &ParseState, p: Seq<u8>) -> Data {
+	if p[5] != 0 { st.game.frames.ports@[slot_of(st, p[4])].follower->Some_0 } else { st.game.frames.ports@[slot_of(st, p[4])].leader }
+}
 // event `code` with payload `p` (>= 4 bytes of frame id where applicable) is consistent with the open frame
 pub open spec fn event_ok(st: &ParseState, code: u8, p: Seq<u8>) -> bool {
 	let v = ver(st);
@@ -374,7 +397,11 @@ pub open spec fn event_ok(st: &ParseState, code: u8, p: Seq<u8>) -> bool {
 	&&& (code == 0x3A ==> p.len() >= 4 ==> v.ge(2, 2))
 	&&& (code == 0x37 ==> p.len() >= 6 ==> char_ok(st, p) && (if v.ge(2, 2) { last == Some(be_i32(p, 0)) } else {
 			(last is Some ==> last->Some_0 < 0x7fff_ffff) && (be_i32(p, 0) == (match last { Some(l) => l as int, None => -124int }) + 1 || last == Some(be_i32(p, 0))) }))
-	&&& (code == 0x38 ==> p.len() >= 6 ==> char_ok(st, p) && last == Some(be_i32(p, 0)))
+	// one pre-frame event per character per frame occurrence
+	&&& (code == 0x37 ==> p.len() >= 6 ==> (v.ge(2, 2) || last == Some(be_i32(p, 0)) ==> addressed(st, p).pre.len_spec() + 1 == st.game.frames.id@.len()))
+	// a post-frame event follows that character's pre-frame event, once
+	&&& (code == 0x38 ==> p.len() >= 6 ==> char_ok(st, p) && last == Some(be_i32(p, 0))
+			&& addressed(st, p).post.len_spec() + 1 == st.game.frames.id@.len() && addressed(st, p).pre.len_spec() == st.game.frames.id@.len())
 	&&& (code == 0x3B ==> p.len() >= 4 ==> v.ge(3, 0) && last == Some(be_i32(p, 0)))
 	&&& (code == 0x3C ==> p.len() >= 4 ==> v.ge(3, 0) && last == Some(be_i32(p, 0))
 			&& st.game.frames.item->Some_0.len_spec() <= 0x7fff_ffff
@@ -415,6 +442,10 @@ pub open spec fn next_event_ok(st: &ParseState, rest: Seq<u8>) -> bool {
 		&&& (ec == 0x3A && !ver(st).ge(3, 0) ==> all_closable(st))
 		// a Frame End closes the frame: ditto
 		&&& (ec == 0x3C ==> all_closable(st))
+		// before 2.2 a pre-frame event with the next id closes the previous frame: ditto
+		&&& (ec == 0x37 && !ver(st).ge(2, 2) && p.len() >= 4 && last_id_spec(st) != Some(be_i32(p, 0)) ==> all_closable(st))
+		// from 3.0 on a Frame Start follows a Frame End: every character is level with the frame rows
+		&&& (ec == 0x3A && ver(st).ge(3, 0) ==> rows_level(st))
 	}
 }
 // --- effect of one character event on that character's columns
@@ -437,6 +468,11 @@ pub open spec fn ports_updated(a: Seq<PortData>, b: Seq<PortData>, slot: int, fo
 			&& (if is_pre { char_pre_updated(&a[slot].follower->Some_0, &b[slot].follower->Some_0, p, v) } else { char_post_updated(&a[slot].follower->Some_0, &b[slot].follower->Some_0, p, v) }))
 	&&& (!fol ==> b[slot].follower == a[slot].follower
 			&& (if is_pre { char_pre_updated(&a[slot].leader, &b[slot].leader, p, v) } else { char_post_updated(&a[slot].leader, &b[slot].leader, p, v) }))
+}
+pub open spec fn padded_then_updated(a: Seq<PortData>, mid: Seq<PortData>, b: Seq<PortData>, n: nat, slot: int, folb: u8, p: Seq<u8>, v: Version) -> bool {
+	&&& mid.len() == a.len()
+	&&& forall|k: int| 0 <= k < a.len() ==> port_padded(#[trigger] &a[k], &mid[k], n)
+	&&& ports_updated(mid, b, slot, folb != 0, p, v, true)
 }
 pub open spec fn non_frame_same(a: &ParseState, b: &ParseState) -> bool {
 	&&& b.payload_sizes == a.payload_sizes && b.port_indexes == a.port_indexes
@@ -465,7 +501,9 @@ pub open spec fn event_effect(a: &ParseState, b: &ParseState, code0: u8, p: Seq<
 	&&& (ec == 0x37 ==> {
 			let id = be_i32(ep, 0);
 			&&& fb.id@ == (if v.ge(2, 2) || last_id_spec(a) == Some(id) { fa.id@ } else { fa.id@.push(Some(id)) }) /*[C04.pre_opens_row_before_2_2]*/
-			&&& ports_updated(fa.ports@, fb.ports@, slot_of(a, ep[4]), ep[5] != 0, ep, v, true) /*[C04.pre_row_in_addressed_slot]*/
+			&&& (v.ge(2, 2) || last_id_spec(a) == Some(id) ==> ports_updated(fa.ports@, fb.ports@, slot_of(a, ep[4]), ep[5] != 0, ep, v, true)) /*[C04.pre_row_in_addressed_slot]*/
+			// before 2.2 the event that opens the next frame first pads the characters that were absent from the previous one
+			&&& (!(v.ge(2, 2) || last_id_spec(a) == Some(id)) ==> exists|mid: Seq<PortData>| #[trigger] padded_then_updated(fa.ports@, mid, fb.ports@, fa.id@.len(), slot_of(a, ep[4]), ep[5], ep, v)) /*[C04.pre_2_2_closes_previous_frame]*/
 			&&& fb.start == fa.start && fb.end == fa.end && fb.item == fa.item && fb.item_offset == fa.item_offset
 		})
 	// Frame Post
@@ -502,7 +540,7 @@ pub open spec fn event_effect(a: &ParseState, b: &ParseState, code0: u8, p: Seq<
 // the classes are exhaustive), which keeps each solver query small
 //@fn src/io/slippi/de.rs | - | parse_event | ret=res | twin=__pre | drop=if let Some\(ref d\) = opts | drop=\*state\.event_counts\.entry | sigsub=/mut r: R,/r: &mut R,/ | sub=/r.read_exact(&mut buf)?/r.read_exact(buf.as_mut_slice())?/ | sub=/bytes: buf.to_vec(),/bytes: to_vec_u8(&buf),/
 	requires within_input_bound(&*old(state)), state_swf(&*old(state)), (*old(r)).inv(),
-		next_event_ok(&*old(state), (*old(r)).rest()), !(*old(r)).hit_eof(),
+		next_event_ok(&*old(state), (*old(r)).rest()), !(*old(r)).hit_eof(), rows_aligned(&*old(state)),
 		(*old(r)).rest().len() >= 1 ==> (*old(r)).rest()[0] == 0x37,
 	ensures
 		(*final(r)).inv(), (*final(r)).stable() == (*old(r)).stable(),
@@ -510,12 +548,26 @@ pub open spec fn event_effect(a: &ParseState, b: &ParseState, code0: u8, p: Seq<
 		res is Ok ==> res->Ok_0 == eff_code(&*old(state), (*old(r)).rest()[0], (*old(r)).rest().subrange(1, 1 + payload_size(&*old(state), (*old(r)).rest()[0]))) /*[C12.returns_dispatched_code]*/,
 		res is Ok ==> (*final(state)).bytes_read == (*old(state)).bytes_read + 1 + payload_size(&*old(state), (*old(r)).rest()[0]) /*[C12.bytes_read_accounting]*/,
 		res is Ok ==> state_swf(&*final(state)) /*[C04.state_stays_well_formed]*/,
+		res is Ok ==> rows_aligned(&*final(state)) /*[C04.rows_stay_aligned_with_frames]*/,
 		res is Ok ==> event_effect(&*old(state), &*final(state), (*old(r)).rest()[0], (*old(r)).rest().subrange(1, 1 + payload_size(&*old(state), (*old(r)).rest()[0]))) /*[C04.event_effect]*/,
 		(*final(r)).hit_eof() ==> res is Err /*[C07.eof_is_an_error]*/,
+//@before let mut code
+	let ghost mut mid: Seq<PortData> = Seq::empty();
+//@after frame_close#2
+						proof { mid = state.game.frames.ports@; }
+//@before state.bytes_read +=
+	proof {
+		let a0 = &*old(state);
+		let rest0 = (*old(r)).rest();
+		let ep = rest0.subrange(1, 1 + payload_size(a0, rest0[0]));
+		if !(ver(a0).ge(2, 2) || last_id_spec(a0) == Some(be_i32(ep, 0))) {
+			assert(padded_then_updated(a0.game.frames.ports@, mid, state.game.frames.ports@, a0.game.frames.id@.len(), slot_of(a0, ep[4]), ep[5], ep, ver(a0)));
+		}
+	}
 //@end
 //@fn src/io/slippi/de.rs | - | parse_event | ret=res | twin=__post | drop=if let Some\(ref d\) = opts | drop=\*state\.event_counts\.entry | sigsub=/mut r: R,/r: &mut R,/ | sub=/r.read_exact(&mut buf)?/r.read_exact(buf.as_mut_slice())?/ | sub=/bytes: buf.to_vec(),/bytes: to_vec_u8(&buf),/
 	requires within_input_bound(&*old(state)), state_swf(&*old(state)), (*old(r)).inv(),
-		next_event_ok(&*old(state), (*old(r)).rest()), !(*old(r)).hit_eof(),
+		next_event_ok(&*old(state), (*old(r)).rest()), !(*old(r)).hit_eof(), rows_aligned(&*old(state)),
 		(*old(r)).rest().len() >= 1 ==> (*old(r)).rest()[0] == 0x38,
 	ensures
 		(*final(r)).inv(), (*final(r)).stable() == (*old(r)).stable(),
@@ -523,12 +575,13 @@ pub open spec fn event_effect(a: &ParseState, b: &ParseState, code0: u8, p: Seq<
 		res is Ok ==> res->Ok_0 == eff_code(&*old(state), (*old(r)).rest()[0], (*old(r)).rest().subrange(1, 1 + payload_size(&*old(state), (*old(r)).rest()[0]))) /*[C12.returns_dispatched_code]*/,
 		res is Ok ==> (*final(state)).bytes_read == (*old(state)).bytes_read + 1 + payload_size(&*old(state), (*old(r)).rest()[0]) /*[C12.bytes_read_accounting]*/,
 		res is Ok ==> state_swf(&*final(state)) /*[C04.state_stays_well_formed]*/,
+		res is Ok ==> rows_aligned(&*final(state)) /*[C04.rows_stay_aligned_with_frames]*/,
 		res is Ok ==> event_effect(&*old(state), &*final(state), (*old(r)).rest()[0], (*old(r)).rest().subrange(1, 1 + payload_size(&*old(state), (*old(r)).rest()[0]))) /*[C04.event_effect]*/,
 		(*final(r)).hit_eof() ==> res is Err /*[C07.eof_is_an_error]*/,
 //@end
 //@fn src/io/slippi/de.rs | - | parse_event | ret=res | twin=__start | drop=if let Some\(ref d\) = opts | drop=\*state\.event_counts\.entry | sigsub=/mut r: R,/r: &mut R,/ | sub=/r.read_exact(&mut buf)?/r.read_exact(buf.as_mut_slice())?/ | sub=/bytes: buf.to_vec(),/bytes: to_vec_u8(&buf),/
 	requires within_input_bound(&*old(state)), state_swf(&*old(state)), (*old(r)).inv(),
-		next_event_ok(&*old(state), (*old(r)).rest()), !(*old(r)).hit_eof(),
+		next_event_ok(&*old(state), (*old(r)).rest()), !(*old(r)).hit_eof(), rows_aligned(&*old(state)),
 		(*old(r)).rest().len() >= 1 ==> (*old(r)).rest()[0] == 0x3A,
 	ensures
 		(*final(r)).inv(), (*final(r)).stable() == (*old(r)).stable(),
@@ -536,12 +589,13 @@ pub open spec fn event_effect(a: &ParseState, b: &ParseState, code0: u8, p: Seq<
 		res is Ok ==> res->Ok_0 == eff_code(&*old(state), (*old(r)).rest()[0], (*old(r)).rest().subrange(1, 1 + payload_size(&*old(state), (*old(r)).rest()[0]))) /*[C12.returns_dispatched_code]*/,
 		res is Ok ==> (*final(state)).bytes_read == (*old(state)).bytes_read + 1 + payload_size(&*old(state), (*old(r)).rest()[0]) /*[C12.bytes_read_accounting]*/,
 		res is Ok ==> state_swf(&*final(state)) /*[C04.state_stays_well_formed]*/,
+		res is Ok ==> rows_aligned(&*final(state)) /*[C04.rows_stay_aligned_with_frames]*/,
 		res is Ok ==> event_effect(&*old(state), &*final(state), (*old(r)).rest()[0], (*old(r)).rest().subrange(1, 1 + payload_size(&*old(state), (*old(r)).rest()[0]))) /*[C04.event_effect]*/,
 		(*final(r)).hit_eof() ==> res is Err /*[C07.eof_is_an_error]*/,
 //@end
 //@fn src/io/slippi/de.rs | - | parse_event | ret=res | twin=__item | drop=if let Some\(ref d\) = opts | drop=\*state\.event_counts\.entry | sigsub=/mut r: R,/r: &mut R,/ | sub=/r.read_exact(&mut buf)?/r.read_exact(buf.as_mut_slice())?/ | sub=/bytes: buf.to_vec(),/bytes: to_vec_u8(&buf),/
 	requires within_input_bound(&*old(state)), state_swf(&*old(state)), (*old(r)).inv(),
-		next_event_ok(&*old(state), (*old(r)).rest()), !(*old(r)).hit_eof(),
+		next_event_ok(&*old(state), (*old(r)).rest()), !(*old(r)).hit_eof(), rows_aligned(&*old(state)),
 		(*old(r)).rest().len() >= 1 ==> (*old(r)).rest()[0] == 0x3B,
 	ensures
 		(*final(r)).inv(), (*final(r)).stable() == (*old(r)).stable(),
@@ -549,12 +603,13 @@ pub open spec fn event_effect(a: &ParseState, b: &ParseState, code0: u8, p: Seq<
 		res is Ok ==> res->Ok_0 == eff_code(&*old(state), (*old(r)).rest()[0], (*old(r)).rest().subrange(1, 1 + payload_size(&*old(state), (*old(r)).rest()[0]))) /*[C12.returns_dispatched_code]*/,
 		res is Ok ==> (*final(state)).bytes_read == (*old(state)).bytes_read + 1 + payload_size(&*old(state), (*old(r)).rest()[0]) /*[C12.bytes_read_accounting]*/,
 		res is Ok ==> state_swf(&*final(state)) /*[C04.state_stays_well_formed]*/,
+		res is Ok ==> rows_aligned(&*final(state)) /*[C04.rows_stay_aligned_with_frames]*/,
 		res is Ok ==> event_effect(&*old(state), &*final(state), (*old(r)).rest()[0], (*old(r)).rest().subrange(1, 1 + payload_size(&*old(state), (*old(r)).rest()[0]))) /*[C04.event_effect]*/,
 		(*final(r)).hit_eof() ==> res is Err /*[C07.eof_is_an_error]*/,
 //@end
 //@fn src/io/slippi/de.rs | - | parse_event | ret=res | twin=__end | drop=if let Some\(ref d\) = opts | drop=\*state\.event_counts\.entry | sigsub=/mut r: R,/r: &mut R,/ | sub=/r.read_exact(&mut buf)?/r.read_exact(buf.as_mut_slice())?/ | sub=/bytes: buf.to_vec(),/bytes: to_vec_u8(&buf),/
 	requires within_input_bound(&*old(state)), state_swf(&*old(state)), (*old(r)).inv(),
-		next_event_ok(&*old(state), (*old(r)).rest()), !(*old(r)).hit_eof(),
+		next_event_ok(&*old(state), (*old(r)).rest()), !(*old(r)).hit_eof(), rows_aligned(&*old(state)),
 		(*old(r)).rest().len() >= 1 ==> (*old(r)).rest()[0] == 0x3C,
 	ensures
 		(*final(r)).inv(), (*final(r)).stable() == (*old(r)).stable(),
@@ -562,12 +617,13 @@ pub open spec fn event_effect(a: &ParseState, b: &ParseState, code0: u8, p: Seq<
 		res is Ok ==> res->Ok_0 == eff_code(&*old(state), (*old(r)).rest()[0], (*old(r)).rest().subrange(1, 1 + payload_size(&*old(state), (*old(r)).rest()[0]))) /*[C12.returns_dispatched_code]*/,
 		res is Ok ==> (*final(state)).bytes_read == (*old(state)).bytes_read + 1 + payload_size(&*old(state), (*old(r)).rest()[0]) /*[C12.bytes_read_accounting]*/,
 		res is Ok ==> state_swf(&*final(state)) /*[C04.state_stays_well_formed]*/,
+		res is Ok ==> rows_aligned(&*final(state)) /*[C04.rows_stay_aligned_with_frames]*/,
 		res is Ok ==> event_effect(&*old(state), &*final(state), (*old(r)).rest()[0], (*old(r)).rest().subrange(1, 1 + payload_size(&*old(state), (*old(r)).rest()[0]))) /*[C04.event_effect]*/,
 		(*final(r)).hit_eof() ==> res is Err /*[C07.eof_is_an_error]*/,
 //@end
 //@fn src/io/slippi/de.rs | - | parse_event | ret=res | twin=__splitter | drop=if let Some\(ref d\) = opts | drop=\*state\.event_counts\.entry | sigsub=/mut r: R,/r: &mut R,/ | sub=/r.read_exact(&mut buf)?/r.read_exact(buf.as_mut_slice())?/ | sub=/bytes: buf.to_vec(),/bytes: to_vec_u8(&buf),/
 	requires within_input_bound(&*old(state)), state_swf(&*old(state)), (*old(r)).inv(),
-		next_event_ok(&*old(state), (*old(r)).rest()), !(*old(r)).hit_eof(),
+		next_event_ok(&*old(state), (*old(r)).rest()), !(*old(r)).hit_eof(), rows_aligned(&*old(state)),
 		(*old(r)).rest().len() >= 1 ==> (*old(r)).rest()[0] == 0x10,
 	ensures
 		(*final(r)).inv(), (*final(r)).stable() == (*old(r)).stable(),
@@ -575,12 +631,13 @@ pub open spec fn event_effect(a: &ParseState, b: &ParseState, code0: u8, p: Seq<
 		res is Ok ==> res->Ok_0 == eff_code(&*old(state), (*old(r)).rest()[0], (*old(r)).rest().subrange(1, 1 + payload_size(&*old(state), (*old(r)).rest()[0]))) /*[C12.returns_dispatched_code]*/,
 		res is Ok ==> (*final(state)).bytes_read == (*old(state)).bytes_read + 1 + payload_size(&*old(state), (*old(r)).rest()[0]) /*[C12.bytes_read_accounting]*/,
 		res is Ok ==> state_swf(&*final(state)) /*[C04.state_stays_well_formed]*/,
+		res is Ok ==> rows_aligned(&*final(state)) /*[C04.rows_stay_aligned_with_frames]*/,
 		res is Ok ==> event_effect(&*old(state), &*final(state), (*old(r)).rest()[0], (*old(r)).rest().subrange(1, 1 + payload_size(&*old(state), (*old(r)).rest()[0]))) /*[C04.event_effect]*/,
 		(*final(r)).hit_eof() ==> res is Err /*[C07.eof_is_an_error]*/,
 //@end
 //@fn src/io/slippi/de.rs | - | parse_event | ret=res | twin=__other | drop=if let Some\(ref d\) = opts | drop=\*state\.event_counts\.entry | sigsub=/mut r: R,/r: &mut R,/ | sub=/r.read_exact(&mut buf)?/r.read_exact(buf.as_mut_slice())?/ | sub=/bytes: buf.to_vec(),/bytes: to_vec_u8(&buf),/
 	requires within_input_bound(&*old(state)), state_swf(&*old(state)), (*old(r)).inv(),
-		next_event_ok(&*old(state), (*old(r)).rest()), !(*old(r)).hit_eof(),
+		next_event_ok(&*old(state), (*old(r)).rest()), !(*old(r)).hit_eof(), rows_aligned(&*old(state)),
 		(*old(r)).rest().len() >= 1 ==> (*old(r)).rest()[0] != 0x37 && (*old(r)).rest()[0] != 0x38 && (*old(r)).rest()[0] != 0x3A && (*old(r)).rest()[0] != 0x3B && (*old(r)).rest()[0] != 0x3C && (*old(r)).rest()[0] != 0x10,
 	ensures
 		(*final(r)).inv(), (*final(r)).stable() == (*old(r)).stable(),
@@ -588,6 +645,7 @@ pub open spec fn event_effect(a: &ParseState, b: &ParseState, code0: u8, p: Seq<
 		res is Ok ==> res->Ok_0 == eff_code(&*old(state), (*old(r)).rest()[0], (*old(r)).rest().subrange(1, 1 + payload_size(&*old(state), (*old(r)).rest()[0]))) /*[C12.returns_dispatched_code]*/,
 		res is Ok ==> (*final(state)).bytes_read == (*old(state)).bytes_read + 1 + payload_size(&*old(state), (*old(r)).rest()[0]) /*[C12.bytes_read_accounting]*/,
 		res is Ok ==> state_swf(&*final(state)) /*[C04.state_stays_well_formed]*/,
+		res is Ok ==> rows_aligned(&*final(state)) /*[C04.rows_stay_aligned_with_frames]*/,
 		res is Ok ==> event_effect(&*old(state), &*final(state), (*old(r)).rest()[0], (*old(r)).rest().subrange(1, 1 + payload_size(&*old(state), (*old(r)).rest()[0]))) /*[C04.event_effect]*/,
 		(*final(r)).hit_eof() ==> res is Err /*[C07.eof_is_an_error]*/,
 //@end
